@@ -82,6 +82,24 @@ CHECKS["C06"] = (SEM, "composition corpus x all 128 subsets of the seven aux-onl
                  "seven: multiset equality of answer sets projected on the source vocabulary (bijection) with costs, for "
                  "every instance", "8/C06")
 
+CHECKS["C17"] = (
+    "exhaustive exploration of set-iteration schedules (import-hook controlled scheduler, deviation bound), of optimize-call "
+    "histories up to a depth bound in pristine forked processes, and of real interpreters under several PYTHONHASHSEED values",
+    "byte-identical output is required for every schedule deviating at <= 1 (2) set-iteration sites from the canonical order, "
+    "for every history of <= 2 (3) earlier optimize calls, and across hash seeds of real python -m ngo processes; the "
+    "caller's statement list is compared before/after every execution", "8/C17")
+CHECKS["C18"] = (
+    "exhaustive enumeration of all subsets of <= 2 (3) of 43 syntactic positions of a probe predicate, ground truth known "
+    "by construction",
+    "for every generated program the three clauses of the property are checked literally on the return values of "
+    "auto_detect_input / auto_detect_output", "8/C18")
+CHECKS["C19"] = (
+    "exhaustive enumeration of the command-line option space (all --enable lists up to a length bound, all forms of the "
+    "predicate and --log options) against a reference model of the documented expansion, plus python -m ngo subprocesses "
+    "for all 512 trait subsets",
+    "in-process runs of the real parser/actions/main() with optimize and parse_files replaced by spies check flags, IN, OUT "
+    "and stdout; end-to-end subprocess runs compare stdout byte for byte with the in-process optimize() result", "8/C19")
+
 ALL = [f"C{i:02d}" for i in range(1, 21)]
 
 
